@@ -178,7 +178,6 @@ func harnessHash() string {
 	return hex.EncodeToString(h.Sum(nil))[:16]
 }
 
-const cacheDir = "/verif/.cache"
 
 func cachePath(kind, name, tier string, seed int64, withRepo bool) string {
 	k := specHash() + harnessHash()
